@@ -1052,6 +1052,21 @@ def c10_spawn(ctx):
     return out
 
 
+def _has_arith(e, depth=0):
+    if depth > 40 or not isinstance(e, tuple):
+        return False
+    if e[0] == 'binop' and e[1] in ('Add', 'Sub', 'Mul', 'Div', 'Rem', 'AddWithOverflow', 'SubWithOverflow', 'MulWithOverflow', 'Shl', 'Shr', 'AddUnchecked', 'SubUnchecked'):
+        return True
+    if e[0] == 'call' and e[1].split('::')[-1] in ('saturating_sub', 'saturating_add', 'wrapping_add', 'wrapping_sub', 'checked_add', 'checked_sub', 'min', 'max', 'add', 'sub'):
+        return True
+    for x in e[1:]:
+        if isinstance(x, tuple) and _has_arith(x, depth + 1):
+            return True
+        if isinstance(x, list) and any(_has_arith(y, depth + 1) for y in x if isinstance(y, tuple)):
+            return True
+    return False
+
+
 def c17(ctx):
     """The pool never exceeds its maximum: every in-crate path that adds a pool thread tests `len < max` in the same critical section;
     threads are created in one place; despawning pops under the lock and joins outside it."""
@@ -1108,6 +1123,7 @@ def c17(ctx):
             continue
         # dominated by the true edge of Lt(len(threads under the same guard), max)
         good = False
+        adjusted = False
         dom = fn.dominators()
         for b2, blk in enumerate(fn.blocks):
             tt = blk['term']
@@ -1124,6 +1140,10 @@ def c17(ctx):
                         op = {'Lt': 'Gt', 'Gt': 'Lt', 'Le': 'Ge', 'Ge': 'Le'}[op]
                     if not ('len(' in a and 'threads' in a and 'max_threads' in b):
                         continue
+                    # the two sides are the table's length and the maximum themselves, not arithmetic on them (`max + allowance`, `len - idle`)
+                    if _has_arith(fn.expr_of_operand(s['rv']['a'])) or _has_arith(fn.expr_of_operand(s['rv']['b'])):
+                        adjusted = True
+                        continue
                     same_guard = frozenset(l for l in H.before.get((b2, len(blk['stmts'])), frozenset()) if H.guards[l] == 'SchedulerCore.threads') & frozenset(l for l in H.at_term.get(bb, frozenset()) if H.guards[l] == 'SchedulerCore.threads')
                     true_edge = tt['otherwise']
                     false_edge = dict((str(v), b3) for v, b3 in tt['targets']).get('0')
@@ -1138,6 +1158,9 @@ def c17(ctx):
             out.append(ok(R, key, 'dominated by the true edge of `threads.len() < max_threads`, tested under the same threads lock', loc=fn.loc(bb), fn=fn.name))
         elif good == 'nonstrict':
             out.append(bad(R, key, 'the bound is tested with `<=`: the pool can grow to max + 1', loc=fn.loc(bb), fn=fn.name))
+        elif adjusted:
+            out.append(bad(R, key, 'the test that licenses a new pool thread compares an adjusted quantity (the maximum plus an allowance, or the table size minus some threads) instead of `threads.len() < max_threads`: '
+                           'the table can hold more threads than the maximum', loc=fn.loc(bb), fn=fn.name))
         else:
             out.append(bad(R, key, 'a pool thread is added without testing `threads.len() < max_threads` in the same critical section', loc=fn.loc(bb), fn=fn.name))
     # thread creation in one place
